@@ -66,6 +66,7 @@ func init() {
 		"(reflect.rtype).Out":             ext۰reflect۰rtype۰Out,
 		"(reflect.rtype).Size":            ext۰reflect۰rtype۰Size,
 		"(reflect.rtype).String":          ext۰reflect۰rtype۰String,
+		"(reflect.rtype).Name":            ext۰reflect۰rtype۰Name,
 		"math.Copysign":                   ext۰math۰Copysign,
 		"math.Min":                        ext۰math۰Min,
 		"reflect.New":                     ext۰reflect۰New,
